@@ -18,9 +18,26 @@ Every operation of the Python code that can raise something that is not a `Value
 `Props/C17.lean` show these branches unreachable for the repaired code.
 
 `dateutil.parser.parse` is a parameter `du : (dayfirst yearfirst : Bool) → List Char → Except Kind Value`.
-The `tz` option is a fixed offset in seconds (`none` = the default, UTC); named zones are exercised by the oracle only. -/
+The `tz` option (`TzOpt`) is absent (the default, UTC), a fixed offset in seconds, or `None` (values without an explicit
+offset stay naive); named zones are exercised by the oracle only. -/
 namespace Pendulum.ParseAll
 open Pendulum Pendulum.Iso
+
+/-- the `tz` option of `pendulum.parse` -/
+inductive TzOpt
+  | default                 -- no `tz=`: `options.get("tz", UTC)` is UTC
+  | fixed (off : Int)       -- a `FixedTimezone(off)` object made by the caller (seconds)
+  | shared (off : Int)      -- a number of hours / a `datetime.timezone`: `_safe_timezone` → `fixed_timezone(off)`, the cached
+                            -- per-offset object (the one the compiled parser's explicit offsets resolve to as well)
+  | naive                   -- `tz=None`: a value without explicit offset stays naive
+  deriving Repr, DecidableEq
+
+/-- the offset `pendulum.datetime(..., tz=tz)` / `pendulum.instance(dt, tz=tz)` give to a naive value; `none` = it stays naive -/
+def TzOpt.fill : TzOpt → Option Int
+  | .default => some 0
+  | .fixed o => some o
+  | .shared o => some o
+  | .naive => none
 
 /-- the options of `pendulum.parse`; `now` = the date given to bare times when `exact` is false -/
 structure Options where
@@ -28,7 +45,7 @@ structure Options where
   strict : Bool := true
   dayFirst : Bool := false
   yearFirst : Bool := true
-  tz : Option Int := none
+  tz : TzOpt := .default
   now : Int × Int × Int := (2001, 2, 3)
   deriving Repr
 
@@ -223,8 +240,6 @@ def baseParse (b : Backend) (o : Options) (du : Dateutil) (cs : List Char) : Exc
 
 def toDT (v : Value) (off : Int) : IsoInterval.DT := ⟨v.y, v.m, v.d, v.h, v.mi, v.s, v.us, off⟩
 
-def ofDT (t : IsoInterval.DT) : Value := ⟨.datetime, t.y, t.m, t.d, t.h, t.mi, t.s, t.us, some t.off⟩
-
 def offOk (o : Int) : Bool := decide (-86400 < o) && decide (o < 86400)
 
 /-- the UTC instant of the value is itself a representable datetime (`_start - offset` in `Interval.__new__`,
@@ -233,29 +248,47 @@ def utcOk (t : IsoInterval.DT) : Bool :=
   decide (0 ≤ t.wall - t.off * 1000000) &&
   decide (t.wall - t.off * 1000000 < (Cal.ymd2ord 10000 1 1 - 1) * IsoInterval.dayUs)
 
-/-- `pendulum.instance(dt, tz=tz)` for an endpoint: `dt.utcoffset()` raises ValueError for an offset of 24 h or more -/
-def instanceDT (tz : Option Int) (v : Value) : Except Kind IsoInterval.DT :=
-  if offOk (v.off.getD (tz.getD 0)) then .ok (toDT v (v.off.getD (tz.getD 0))) else .error .valueError
+/-- the UTC offset of an endpoint after `pendulum.instance(dt, tz=tz)` (`tz = dt.tzinfo or tz`); `none` = a naive DateTime
+    (only under `tz=None`, for an endpoint written without offset) -/
+def endOff (tz : TzOpt) (v : Value) : Option Int :=
+  match v.off with
+  | some o => some o
+  | none => tz.fill
+
+def isAware (tz : TzOpt) (v : Value) : Bool := (endOff tz v).isSome
+
+/-- `pendulum.instance(dt, tz=tz)` for an endpoint: `dt.utcoffset()` raises ValueError for an offset of 24 h or more.
+    A naive endpoint is carried with offset 0 (`isAware` tells the two apart; `add`/`subtract` do not look at the offset). -/
+def instanceDT (tz : TzOpt) (v : Value) : Except Kind IsoInterval.DT :=
+  match endOff tz v with
+  | some o => if offOk o then .ok (toDT v o) else .error .valueError
+  | none => .ok (toDT v 0)
+
+/-- back to a value: an aware DateTime with its offset, or a naive one -/
+def ofDTa (aware : Bool) (t : IsoInterval.DT) : Value :=
+  ⟨.datetime, t.y, t.m, t.d, t.h, t.mi, t.s, t.us, if aware then some t.off else none⟩
 
 /-- do the two endpoints carry the same tzinfo *object*? (then `Interval.__new__` subtracts the offsets by hand).
     Naive endpoints get the `tz` option (or the UTC singleton); the Python parser builds a fresh `FixedTimezone` per
-    offset, the compiled one goes through the cache of `fixed_timezone` (one object per offset). Irrelevant for offset 0. -/
-def sameTzObj (b : Backend) (s e : Value) : Bool :=
+    offset, the compiled one goes through the cache of `fixed_timezone` (one object per offset), and so does a `tz` option
+    given as a number of hours or a `datetime.timezone` (`TzOpt.shared`). Irrelevant for offset 0. -/
+def sameTzObj (b : Backend) (tz : TzOpt) (s e : Value) : Bool :=
   match s.off, e.off with
   | none, none => true
   | some a, some c => b == .rust && a == c
-  | _, _ => false
+  | none, some c => b == .rust && tz == .shared c
+  | some a, none => b == .rust && tz == .shared a
 
 /-- `Interval.__init__` → the pure-Python `precise_diff` (after its `d1 == d2` shortcut) subtracts the offsets as well unless
     the two zone *names* are equal and the wall dates differ (the compiled `precise_diff` does the shift on plain integers
     and cannot overflow) -/
-def needUtc (b : Backend) (s e : Value) (ts te : IsoInterval.DT) : Bool :=
-  sameTzObj b s e ||
+def needUtc (b : Backend) (tz : TzOpt) (s e : Value) (ts te : IsoInterval.DT) : Bool :=
+  sameTzObj b tz s e ||
   (b == .py && ts.wall - ts.off * 1000000 != te.wall - te.off * 1000000 &&
     (ts.off != te.off || (s.y == e.y && s.m == e.m && s.d == e.d)))
 
 /-- everything that fails inside `_interval` is an OverflowError or a ValueError; both are reported as ParserError -/
-def assembleRaw (b : Backend) (tz : Option Int) (r : IntervalRaw) : Except Kind Out :=
+def assembleRaw (b : Backend) (tz : TzOpt) (r : IntervalRaw) : Except Kind Out :=
   match r with
   | .startDur s p =>
     match instanceDT tz s with
@@ -263,14 +296,19 @@ def assembleRaw (b : Backend) (tz : Option Int) (r : IntervalRaw) : Except Kind 
     | .ok t =>
       match IsoInterval.add t (durOf p) with
       | .error _ => .error (.other "OverflowError")
-      | .ok t2 => if utcOk t && utcOk t2 then .ok (.interval (ofDT t) (ofDT t2)) else .error (.other "OverflowError")
+      | .ok t2 =>
+        -- a naive DateTime is never shifted to UTC (`add`, `Interval.__new__`, `precise_diff`: `utcoffset()` is None)
+        if !isAware tz s || (utcOk t && utcOk t2) then .ok (.interval (ofDTa (isAware tz s) t) (ofDTa (isAware tz s) t2))
+        else .error (.other "OverflowError")
   | .durEnd p e =>
     match instanceDT tz e with
     | .error e => .error e
     | .ok t =>
       match IsoInterval.sub t (durOf p) with
       | .error _ => .error (.other "OverflowError")
-      | .ok t2 => if utcOk t && utcOk t2 then .ok (.interval (ofDT t2) (ofDT t)) else .error (.other "OverflowError")
+      | .ok t2 =>
+        if !isAware tz e || (utcOk t && utcOk t2) then .ok (.interval (ofDTa (isAware tz e) t2) (ofDTa (isAware tz e) t))
+        else .error (.other "OverflowError")
   | .startEnd s e =>
     if s.kind = .date ∧ e.kind = .date then .ok (.interval s e)
     else if s.kind = .datetime ∧ e.kind = .datetime then
@@ -280,11 +318,14 @@ def assembleRaw (b : Backend) (tz : Option Int) (r : IntervalRaw) : Except Kind 
         match instanceDT tz e with
         | .error k => .error k
         | .ok te =>
-          if needUtc b s e ts te && !(utcOk ts && utcOk te) then .error (.other "OverflowError")
-          else .ok (.interval (ofDT ts) (ofDT te))
+          -- the repair: one endpoint naive (no offset in the string, `tz=None`), the other aware → ParserError
+          -- (before: `Interval.__new__` raised TypeError "can't compare offset-naive and offset-aware datetimes")
+          if isAware tz s != isAware tz e then .error .parserError
+          else if isAware tz s && needUtc b tz s e ts te && !(utcOk ts && utcOk te) then .error (.other "OverflowError")
+          else .ok (.interval (ofDTa (isAware tz s) ts) (ofDTa (isAware tz e) te))
     else .error .valueError         -- "Both start and end of an Interval must have the same type"
 
-def assemble (b : Backend) (tz : Option Int) (r : IntervalRaw) : Except Kind Out :=
+def assemble (b : Backend) (tz : TzOpt) (r : IntervalRaw) : Except Kind Out :=
   match assembleRaw b tz r with
   | .ok o => .ok o
   | .error .parserError => .error .parserError
@@ -299,10 +340,28 @@ def outOfValue (v : Value) : Out :=
   | .date => .date v
   | .time => .time v
 
+/-- `_normalize` + `parser._parse` for a date/time value: `Iso.wrap` for the default / a fixed offset; under `tz=None`
+    `pendulum.datetime(..., tz=None)` builds a naive DateTime (an aware parsed datetime goes through `instance()` as before) -/
+def wrapTz (exact : Bool) (tz : TzOpt) (now : Int × Int × Int) (v : Value) : R :=
+  match tz with
+  | .default => wrap exact none now v
+  | .fixed o => wrap exact (some o) now v
+  | .shared o => wrap exact (some o) now v
+  | .naive =>
+    match v.kind with
+    | .datetime =>
+      match v.off with
+      | some o => if -86400 < o ∧ o < 86400 then .ok v else .error .valueError
+      | none => .ok v
+    | .date => if exact then .ok v else .ok { v with kind := .datetime, off := none }
+    | .time =>
+      if exact then .ok { v with off := none }
+      else .ok { v with kind := .datetime, y := now.1, m := now.2.1, d := now.2.2, off := none }
+
 def finishOut (b : Backend) (o : Options) (p : Parsed1) : Except Kind Out :=
   match p with
   | .iso (.val v) =>
-    match wrap o.exact o.tz o.now v with
+    match wrapTz o.exact o.tz o.now v with
     | .ok w => .ok (outOfValue w)
     | .error e => .error e
   | .iso (.dur p) =>
